@@ -271,6 +271,92 @@ mod imp {
                 Err(m) => rep.report("panic:capacity_sweep".to_string(), json!({"kind": "capacity_sweep", "capacity": cap, "panic": m})),
             }
         });
+        // the table as the search holds it (its own `state.transposition_table`, through the
+        // TranspositionTable trait): every operation sequence up to depth 5 (6) over 3 keys x 3 entry
+        // shapes (different search depths, values, bound types) + lookups + clear, observable state
+        // compared with the reference after every operation. Its capacity is the product's (10^7), so
+        // this half is about store / overwrite / lookup / clear, the eviction half is above.
+        let t3 = Instant::now();
+        let wrapper_steps = AtomicU64::new(0);
+        {
+            use inkayaku_engine_core::verif::SearchTable;
+            let keys: [u64; 3] = [0x9E37_79B9_7F4A_7C15, 1, u64::MAX];
+            // (depth, value, node type) packed into the reference's u64
+            let shapes: [(usize, i32, u8); 3] = [(1, 10, 0), (5, -20, 1), (3, 30, 2)];
+            let pack = |s: (usize, i32, u8)| -> u64 { ((s.0 as u64) << 40) | (((s.1 as u32) as u64) << 8) | s.2 as u64 };
+            let mut menu: Vec<Op> = Vec::new();
+            for &k in &keys {
+                for &sh in &shapes {
+                    menu.push(Op::Put(k, pack(sh)));
+                }
+                menu.push(Op::Get(k));
+            }
+            menu.push(Op::Clear);
+            let depth = if tier == Tier::Quick { 5 } else { 6 };
+            let firsts: Vec<usize> = (0..menu.len()).collect();
+            par_map(&firsts, |&f| {
+                let mut t = SearchTable::new();
+                let cap = 10_000_000usize;
+                // iterative DFS over op sequences; the table is rebuilt by replay after each backtrack
+                fn apply(t: &mut SearchTable, r: &mut RefTable, op: Op) {
+                    match op {
+                        Op::Put(k, v) => {
+                            t.put(k, (v >> 40) as usize, ((v >> 8) & 0xffff_ffff) as u32 as i32, (v & 0xff) as u8);
+                            r.put(k, v);
+                        }
+                        Op::Get(_) => {}
+                        Op::Clear => {
+                            t.clear();
+                            r.clear();
+                        }
+                    }
+                }
+                let mut stack: Vec<Vec<Op>> = vec![vec![menu[f]]];
+                while let Some(hist) = stack.pop() {
+                    t.clear();
+                    let mut r = RefTable { cap, ..Default::default() };
+                    for &op in &hist {
+                        apply(&mut t, &mut r, op);
+                    }
+                    wrapper_steps.fetch_add(1, std::sync::atomic::Ordering::Relaxed);
+                    // observable state after the last operation
+                    let mut problem: Option<String> = None;
+                    for &k in &keys {
+                        let got = t.get(k).map(|(d, v, n)| ((d as u64) << 40) | (((v as u32) as u64) << 8) | n as u64);
+                        let want = r.get(k);
+                        if got != want {
+                            problem = Some(format!("lookup_differs: get({:#x}) = {:?}, reference {:?} (depth<<40 | value<<8 | bound)", k, got, want));
+                            break;
+                        }
+                    }
+                    if problem.is_none() && t.len() != r.vals.len() {
+                        problem = Some(format!("len() = {} but {} entries stored", t.len(), r.vals.len()));
+                    }
+                    if problem.is_none() {
+                        let want = r.vals.len() as f32 / cap as f32;
+                        if (t.load_factor() - want).abs() > want * 1e-5 + 1e-12 {
+                            problem = Some(format!("load_factor {:e} but {} entries of {}", t.load_factor(), r.vals.len(), cap));
+                        }
+                    }
+                    if let Some(pr) = problem {
+                        rep.report(format!("search_table:{}", sig_of(&pr)), json!({"kind": "search_table_history", "ops": ops_json(&hist), "problem": pr}));
+                        continue; // do not extend a history that already failed
+                    }
+                    if hist.len() < depth {
+                        for &op in &menu {
+                            // a lookup changes nothing: only as the last operation
+                            if matches!(hist.last(), Some(Op::Get(_))) {
+                                continue;
+                            }
+                            let mut h = hist.clone();
+                            h.push(op);
+                            stack.push(h);
+                        }
+                    }
+                }
+            });
+        }
+        let wrapper_secs = t3.elapsed().as_secs_f64();
         // declared-capacity probe: capacities of EVERY magnitude up to 2^62 cannot be filled, but what
         // the table does with the configured number shows without filling it: the fill level it
         // reports (entries / configured capacity) and that nothing is evicted below the capacity
@@ -309,6 +395,7 @@ mod imp {
         cov.set("stateright_bfs", json!(per_cap));
         cov.set("capacity_sweep", json!({"capacities": caps_swept, "operations": sweep_ops.load(std::sync::atomic::Ordering::Relaxed), "secs": t1.elapsed().as_secs_f64(), "history": "capacity+5 distinct puts, lookups of the first / last / power-of-two keys, overwrites in the full table, clear"}));
         cov.set("declared_capacity_probe", json!({"capacities": declared.len(), "largest": declared.last(), "operations": probe_ops.load(std::sync::atomic::Ordering::Relaxed), "secs": declared_secs, "history": "min(capacity+3, 3000) distinct puts; len, reported fill level against entries / configured capacity, oldest key still present"}));
+        cov.set("search_table_histories", json!({"what": "the transposition table object a Search owns, through the TranspositionTable trait", "histories": wrapper_steps.load(std::sync::atomic::Ordering::Relaxed), "keys": 3, "entry_shapes": 3, "secs": wrapper_secs}));
         cov.set("unrolled_histories_without_dedup", json!({"capacity": ucap, "depth": udepth, "histories": unrolled, "secs": t0.elapsed().as_secs_f64()}));
         cov.set("explanation", json!("reachable state space of the real table (deduplicated on its own queue+map contents) explored to fixpoint for each capacity with capacity+2 keys and 2 values; the table only compares keys for equality, so capacity+2 keys let 'present', 'evicted and re-inserted' and 'never seen' coexist"));
         cov.samples = SAMPLES.lock().unwrap().clone();
